@@ -3,6 +3,7 @@ import itertools
 
 from .. import grids, datarun
 from ..framework import Stage
+from . import extras_common
 from . import algo_common as ac
 
 PID = "C17"
@@ -130,4 +131,5 @@ def stages(tier, rng, only=None):
                          _nt, datarun.init))
         out.append(Stage("grid4x2", "Trace_Dataset", datarun.run_eq, lambda: pair_cases(grids.datasets(4, 2)[::5], rng),
                          _nt, datarun.init))
+    out += extras_common.c17_stages(tier, rng)      # specified behaviour outside the listed properties (drift only)
     return [s for s in out if not only or s.name == only]
